@@ -345,12 +345,17 @@ def main(prop_mod, argv=None):
     # 2. correspondence + direct oracles
     try:
         prop_mod.run(ctx)
-    except Exception:  # infrastructure failure inside the harness
+    except Exception:
         tb = traceback.format_exc()
         print(tb, file=sys.stderr)
-        print(f"HARNESS-ERROR property={prop}: {tb.splitlines()[-1]}")
-        _write_evidence(ctx, prop_mod, theorems, infra_error=tb[-2000:])
-        return 2
+        if "/symmray/" in tb and "harness/" in tb:
+            # the implementation raised from inside a call the harness makes on inputs that are
+            # accepted on the reference tree: the correspondence can no longer be run
+            ctx.broken.append(("implementation-raised-unexpectedly", tb[-3000:]))
+        else:  # infrastructure failure inside the harness itself
+            print(f"HARNESS-ERROR property={prop}: {tb.splitlines()[-1]}")
+            _write_evidence(ctx, prop_mod, theorems, infra_error=tb[-2000:])
+            return 2
 
     # 3. verdict
     for k in ctx.known_hits.values():
